@@ -8,13 +8,56 @@ from . import opspecs
 from .drivers import Sink, new_store, ApiStepper
 
 
-def run_api(spec, items, track_states=False):
-    """rx.from_(items).pipe(with_store(store, build(spec))) -> (sink, ctx, store)."""
+def run_api(spec, items, track_states=False, twice=False):
+    """rx.from_(items).pipe(with_store(store, build(spec))) -> (sink, ctx, store).
+    twice=True: the same observable is subscribed a second time afterwards (logs of the context are restored to the first
+    run); `second_problem(sink)` then tells whether the second subscription behaved differently."""
     ctx = opspecs.Ctx(track_states)
     store = new_store()
     sink = Sink()
-    sink.subscribe_to(rx.from_(items).pipe(rs.state.with_store(store, opspecs.build(spec, ctx))))
+    obs = rx.from_(items).pipe(rs.state.with_store(store, opspecs.build(spec, ctx)))
+    sink.subscribe_to(obs)
+    if twice:
+        resubscribe(obs, sink, ctx)
     return sink, ctx, store
+
+
+def resubscribe(obs, sink, ctx=None):
+    marks = {k: len(v) for k, v in ctx.logs.items()} if ctx is not None else {}
+    states = set(ctx.states) if ctx is not None and ctx.states is not None else None
+    again = Sink()
+    again.subscribe_to(obs)
+    if ctx is not None:
+        for k, v in ctx.logs.items():
+            del v[marks.get(k, 0):]
+        if states is not None:
+            ctx.states = states
+    sink.second = again
+    return again
+
+
+def second_problem(sink):
+    """None, or what differs between the first and the second subscription of the same observable."""
+    again = getattr(sink, 'second', None)
+    if again is None or sink.error is not None or same_outcome(sink, again):
+        return None
+    return {'first': [sink.items, sink.status()], 'second': [again.items, again.status()]}
+
+
+def run_twice(spec, items, mux=True):
+    """ONE observable (one pipeline object, one store) subscribed twice in a row: (first sink, second sink)."""
+    ctx = opspecs.Ctx()
+    ops = opspecs.build(spec, ctx)
+    obs = rx.from_(items).pipe(rs.state.with_store(new_store(), ops)) if mux else rx.from_(items).pipe(*ops)
+    a = Sink()
+    a.subscribe_to(obs)
+    b = Sink()
+    b.subscribe_to(obs)
+    return a, b
+
+
+def same_outcome(a, b):
+    return repr(a.items) == repr(b.items) and a.completed == b.completed and type(a.error) is type(b.error)
 
 
 def run_plain(spec, items):
